@@ -1,5 +1,6 @@
 import WK.Proofs.C28_inv
 import WK.Proofs.C28_accept
+import WK.Gen.C28
 /-
   C28 — Every SEND gets exactly one SENDACK, in order.
 
@@ -209,5 +210,126 @@ example : verdict [.sub 1 1, .sub 1 2, .hand 1 1 0, .hand 1 2 0, .ack 1 2 1 1000
 example : verdict [.sub 1 1, .hand 1 1 0, .ack 1 1 1 100001 true, .ack 1 1 1 100001 true] = "viol:ack-duplicate" := by decide
 example : verdict [.sub 1 1, .hand 1 1 0, .drainRet 0, .snap 1 true] = "viol:ack-missing" := by decide
 example : verdict [.drainRet 1, .sub 1 1, .hand 1 1 0] = "viol:dispatch-after-fence" := by decide
+
+/-! ## Part 3 — collateral close (a failed micro-batch closes every session in it) -/
+
+/-- Collateral close, model side: when the handler batch of shard `sh` fails, every
+    session that still has an un-acknowledged item in that batch is closed and its
+    items leave the pipeline; every other session is left exactly as it was. -/
+theorem c28_abort_closes_batch {sh : Nat} (h : step shardOf st (.abort sh) = some st') :
+    (∀ it ∈ st.inflight, shardOf it.1 = sh → (st'.sess it.1).closed = true ∧ it ∉ st'.inflight) ∧
+    (∀ x, (∀ it ∈ st.inflight, shardOf it.1 = sh → it.1 ≠ x) → st'.sess x = st.sess x) := by
+  simp only [step] at h
+  split at h
+  · cases h
+  · cases h
+    refine ⟨?_, ?_⟩
+    · intro it hit hs
+      refine ⟨?_, ?_⟩
+      · have : (st.inflight.filter (fun it => shardOf it.1 == sh)).any (fun j => j.1 == it.1) = true := by
+          rw [List.any_eq_true]
+          exact ⟨it, List.mem_filter.mpr ⟨hit, by simp [hs]⟩, by simp⟩
+        simp [this]
+      · intro hm
+        have := (List.mem_filter.mp hm).2
+        simp [hs] at this
+    · intro x hx
+      have : (st.inflight.filter (fun it => shardOf it.1 == sh)).any (fun j => j.1 == x) = false := by
+        rw [Bool.eq_false_iff]
+        intro hany
+        rw [List.any_eq_true] at hany
+        obtain ⟨it, hit, hix⟩ := hany
+        have hm := List.mem_filter.mp hit
+        exact hx it hm.1 (by simpa using hm.2) (by simpa using hix)
+      simp [this]
+
+example : ∃ st, run (fun _ => 0) {} [.recv 1, .enq 1 true, .recv 2, .enq 2 true, .take 0 2, .close 1, .abort 0] = some st ∧
+    (st.sess 2).closed = true ∧ (st.sess 2).admitted = [0] ∧ (st.sess 2).acked = [] ∧ st.inflight = [] := ⟨_, rfl, rfl, rfl, rfl, rfl⟩
+
+/-- What the property allows: an admitted SEND can be neither acknowledged nor still in
+    the pipeline only if its session is closed ("… unless the session closes first"). -/
+theorem c28_unacked_gone_only_if_closed (h : Reach shardOf st) (s n : Nat)
+    (ha : n ∈ (st.sess s).admitted) (h1 : n ∉ (st.sess s).acked)
+    (h2 : n ∉ itemsOf s st.inflight) (h3 : n ∉ itemsOf s st.queue) : (st.sess s).closed = true := by
+  cases hc : (st.sess s).closed with
+  | true => rfl
+  | false =>
+    have := c28_pipeline_exact h s hc
+    rw [this] at ha
+    simp only [List.mem_append] at ha
+    rcases ha with ha | ha | ha
+    · exact absurd ha h1
+    · exact absurd ha h2
+    · exact absurd ha h3
+
+/-- once the acceptor has seen `closed s` it accepts no further write to that session -/
+theorem closed_after {s : Nat} : ∀ (post : List Ev) (a a' : Acc), a.closed = true → runFrom s a post = .ok a' →
+    a'.closed = true ∧ acksOf s post = [] ∧ pushesOf s post = []
+  | [], a, a', hd, h => by simp [runFrom] at h; subst h; simp [hd, acksOf, pushesOf]
+  | e :: es, a, a', hd, h => by
+    simp only [runFrom] at h
+    cases hs : stepS s a e with
+    | error m => simp [hs] at h
+    | ok a1 =>
+      simp only [hs] at h
+      have hd1 : a1.closed = true ∧ acksOf s [e] = [] ∧ pushesOf s [e] = [] := by
+        cases e <;> simp only [stepS] at hs
+        case ack t n r m noOk =>
+          by_cases hts : t = s
+          · subst hts; simp [hd] at hs
+          · simp [hts] at hs; subst hs; simp [hd, acksOf, pushesOf, hts]
+        case push t k =>
+          by_cases hts : t = s
+          · subst hts; simp [hd] at hs
+          · simp [hts] at hs; subst hs; simp [hd, acksOf, pushesOf, hts]
+        all_goals (repeat' split at hs) <;> first
+          | (cases hs; simp [hd, acksOf, pushesOf]; done)
+          | cases hs
+      obtain ⟨ih0, ih1, ih2⟩ := closed_after es a1 a' hd1.1 h
+      have e0 : e :: es = [e] ++ es := rfl
+      have e1 : acksOf s (e :: es) = acksOf s [e] ++ acksOf s es := by
+        rw [e0]; simp only [acksOf, List.filterMap_append]
+      have e2 : pushesOf s (e :: es) = pushesOf s [e] ++ pushesOf s es := by
+        rw [e0]; simp only [pushesOf, List.filterMap_append]
+      rw [e1, e2, hd1.2.1, hd1.2.2, ih1, ih2]; exact ⟨ih0, by simp⟩
+
+/-- Collateral close, acceptor side: a session the gateway closed (for whatever reason,
+    including a failed micro-batch it merely shared) is *treated as closed* by the judge:
+    no SENDACK and no other frame of that session is accepted afterwards, and its
+    un-acknowledged SENDs are excused — the completeness clause (`ack-missing`) applies
+    only to sessions the final snapshot reports open. -/
+theorem c28_accept_closed_session (s : Nat) (pre post : List Ev) (a : Acc)
+    (h : runS s (pre ++ Ev.closed s :: post) = .ok a) :
+    a.closed = true ∧ acksOf s post = [] ∧ pushesOf s post = [] ∧
+    (∀ b : Acc, stepS s b (Ev.snap s false) = .ok b) := by
+  obtain ⟨a1, _, h2⟩ := runFrom_append pre _ {} a h
+  simp only [runFrom] at h2
+  have hs : stepS s a1 (Ev.closed s) = .ok { a1 with closed := true } := by simp [stepS]
+  rw [hs] at h2
+  obtain ⟨c1, c2, c3⟩ := closed_after post _ a rfl h2
+  exact ⟨c1, c2, c3, fun b => by simp [stepS]⟩
+
+example : verdict [.sub 1 1, .sub 2 1, .hand 1 1 0, .hand 2 1 0, .closed 1, .closed 2, .drainRet 0, .snap 1 false, .snap 2 false] = "ok" := by decide
+example : verdict [.sub 2 1, .hand 2 1 0, .closed 2, .ack 2 1 1 200001 true] = "viol:ack-after-close" := by decide
+
+/-! ## Part 4 — T tie: the synchronisation order of async_send.go (regenerated on every run) -/
+
+/-- The source still has the admission protocol the LTS assumes: `closed` is read and
+    `admitted.Add(1)` done in one admissionMu critical section before anything else
+    (transition `recv`), every later failure exit gives the admission back (`enq s false`),
+    `drain` sets `closed` under the same mutex before it waits for `admitted`
+    (`drainStart`/`drainDone`), `completeAdmission` is `admitted.Done`, and the batch handler
+    gives admissions back only after dispatch. -/
+theorem c28_src_admission_protocol :
+    admissionAtomic WK.Gen.C28.submitCalls = true ∧
+    failureExitsGiveBack WK.Gen.C28.submitCalls = true ∧
+    drainOrder WK.Gen.C28.drainCalls = true ∧
+    WK.Gen.C28.completeAdmissionCalls = [(0, "e.admitted.Done")] ∧
+    batchGivesBackAfterDispatch WK.Gen.C28.handleMailboxBatchCalls = true := by decide
+
+-- non-vacuity: the checkers reject the protocol of the missed-then-caught mutant (Add after the reservations)
+example : admissionAtomic [(0, "e.admissionMu.Lock"), (0, "e.closed.Load"), (1, "e.admissionMu.Unlock"), (0, "e.admissionMu.Unlock"),
+    (0, "asyncSendShardIndex"), (0, "e.reserve"), (0, "e.reserveShard"), (1, "e.consume"), (0, "e.admitted.Add")] = false := by decide
+example : failureExitsGiveBack [(0, "e.reserve"), (0, "e.reserveShard"), (1, "e.consume"), (1, "e.completeAdmission")] = false := by decide
 
 end WK.C28
